@@ -161,6 +161,21 @@ def run(ctx):
         ops.append(["app", ctx.rng.choice(strings), ctx.rng.choice(strings)])
     impl = impl_lines(exe, ops)
     mismatches = []
+    # the document part (c19_docs) runs beside the rest: it is the only user of ctx.rng from here on; the
+    # model files both sides evaluate are built first so that no two `make` runs compile the same file
+    ctx.build(["theories/Data/PathRun.vo", "theories/Json/AuditRun.vo", "theories/Engine/Run.vo"])
+    import threading
+    box = {}
+
+    def _docs():
+        try:
+            from props import c19_docs
+            box["docs"] = c19_docs.run_docs(ctx, exe, vlib.build_harness(features=("stream",)))
+        except Exception as e:
+            import traceback
+            box["err"] = (str(e) + " | " + traceback.format_exc())[-600:]
+    th = threading.Thread(target=_docs)
+    th.start()
     try:
         okb, logb = ctx.build(["theories/Data/PathRun.vo"])
         if not okb:
@@ -185,12 +200,12 @@ def run(ctx):
         afails += tree["fails"]
     except Exception as e:       # a broken model build is reported as a correspondence failure
         mismatches.append(dict(op="tree-audit-model-does-not-evaluate", err=str(e)[-400:]))
-    # documents that load but are outside the compilers' output (both loader builds)
-    docs = dict(fails=[], mismatches=[], outside={}, nobj=0, ndocs=0, nplay=0)
-    try:
-        from props import c19_docs
-        exe_stream = vlib.build_harness(features=("stream",))
-        docs = c19_docs.run_docs(ctx, exe, exe_stream)
+    # documents that load but are outside the compilers' output (started above, both loader builds)
+    th.join()
+    docs = box.get("docs") or dict(fails=[], mismatches=[], outside={}, nobj=0, ndocs=0, nplay=0)
+    if "err" in box:
+        mismatches.append(dict(op="document-audit-does-not-run", err=box["err"]))
+    else:
         docs["fails"].sort(key=lambda f: len(json.dumps(f.get("doc"))))
         afails += docs["fails"]
         for m in docs["mismatches"][:3]:
@@ -203,15 +218,15 @@ def run(ctx):
                 single.setdefault(hz, dict(kinds=[], example=ex.get("story"), doc=ex.get("doc")))["kinds"].append(kind)
         for hz, info in single.items():
             key = "outside-wf:" + hz
-            what = ("hand-written document outside the hypothesis wf_tree (%s): %s — the model predicts the same; "
-                    "e.g. %s" % (hz, ", ".join(sorted(set(info["kinds"]))), info["example"]))
+            what = ("story document outside the compilers' output and outside the hypothesis wf_tree (%s) loads, and then: "
+                    "%s (the model's listing shows the same audit lines); e.g. %s"
+                    % (hz, ", ".join(sorted(set(info["kinds"]))), info["example"]))
             if key in known:
                 ctx.violation(what, dict(doc=info["doc"]), key=key)
             else:
                 ctx.notes.append(what + "  [key %s]" % key)
-        docs["outside_single"] = {k: dict(kinds=sorted(set(v["kinds"])), example=v["example"], doc=v["doc"]) for k, v in single.items()}
-    except Exception as e:
-        mismatches.append(dict(op="document-audit-does-not-run", err=str(e)[-400:]))
+        docs["outside_single"] = {k: dict(kinds=sorted(set(v["kinds"])), example=v["example"], doc=v["doc"])
+                                  for k, v in single.items()}
     ctx.coverage.update(dict(
         documents=dict(generated=docs.get("ndocs"), loaded_runs=docs.get("loaded"), rejected_runs=docs.get("rejected"),
                        audited_objects=docs.get("nobj"), play_cases=docs.get("nplay"), engine=docs.get("engine"),
